@@ -133,10 +133,13 @@ def build(world, case):
     # environment
     env = {}
     ek = case['env']
+    # 'blank': the variable is present with an empty value (export NDN_CLIENT_X=): present, so it is the override
     if ek['transport']:
-        env['NDN_CLIENT_TRANSPORT'] = raw['transport'] = 'tcp://env-host:7001'
+        env['NDN_CLIENT_TRANSPORT'] = raw['transport'] = '' if ek['transport'] == 'blank' else 'tcp://env-host:7001'
     for key in ('pib', 'tpm'):
-        if ek[key] is not None:
+        if ek[key] == 'blank':
+            env[f'NDN_CLIENT_{key.upper()}'] = raw[key] = ''
+        elif ek[key] is not None:
             env[f'NDN_CLIENT_{key.upper()}'] = raw[key] = SCHEME[key] + w.loc_value(key, ek[key], 'env', conf_dir)
     if case.get('cwd_rel'):
         for key in ('pib', 'tpm'):
@@ -271,6 +274,17 @@ def post_keychain(pib, tpm, base):
     pib_loc = pib.partition(':')[2]
     tpm_loc = tpm.partition(':')[2]
     if not (pib_loc and os.path.isdir(pib_loc) and tpm_loc and os.path.isdir(tpm_loc)):
+        return out
+    if pib.partition(':')[0] != 'pib-sqlite3' or tpm.partition(':')[0] != 'tpm-file':
+        # an override without a (known) scheme, e.g. a variable that is present but empty: refused, not silently replaced
+        try:
+            kc = client_conf.default_keychain(pib, tpm)
+            kc.shutdown()
+            out.append(('C20:default-keychain-unknown-scheme', f'default_keychain({pib!r}, {tpm!r}) did not fail'))
+        except ValueError:
+            pass
+        except Exception as e:
+            out.append(('C20:default-keychain-unknown-scheme', f'default_keychain({pib!r}, {tpm!r}) raised {type(e).__name__}: {e}'))
         return out
     shutil.copy(_template_pib(base), os.path.join(pib_loc, 'pib.db'))
     try:
@@ -439,6 +453,13 @@ def conf_cases(tier, rng):
                             env, first = rnd_env(), rnd_first()
                             env[key], first[key] = ek, fk
                             yield _conf_case(env, files, first, rng.randrange(3), pd, td, cwd_rel=rng.random() < 0.15)
+    # B2. variables that are present but empty, over every file set and first-file key subset
+    for bm in range(1, 8):
+        for files in FILE_SETS:
+            for fm in (0, 7, bm):
+                env = {'transport': 'blank' if bm & 1 else False, 'pib': 'blank' if bm & 2 else None, 'tpm': 'blank' if bm & 4 else None}
+                first = {'transport': bool(fm & 1), 'pib': 'abs' if fm & 2 else None, 'tpm': 'abs' if fm & 4 else None}
+                yield _conf_case(env, files, first, bm % 3, True, True)
     # C. a location that exists but contains a colon
     for key in ('pib', 'tpm'):
         for src in ('env', 'file'):
